@@ -328,6 +328,15 @@ let rsecret_text r : string =
   | _ -> rstring r
 
 let rsecret_value r : gval =
+  match rint r 24 with
+  | 23 ->
+    (* the secret padded so that the cell's text is 255..264 or 511..520 bytes long: lengths kept in a narrow integer wrap
+       there (seeded change C15-14: uint8(len) < 8) *)
+    let t = rsecret_text r in
+    let target = pick r [| 255; 256; 257; 258; 260; 263; 264; 511; 512; 513; 519; 520 |] in
+    let padn = max 0 (target - String.length t - 1) in
+    VStr (bs (String.init padn (fun i -> "abcdefghij klmnopqrst".[i mod 21]) ^ " " ^ t))
+  | _ ->
   match rint r 8 with
   | 0 -> rscalar r
   | 1 -> rbury r (1 + rint r 4) (VStr (bs (rsecret_text r)))
